@@ -257,7 +257,9 @@ restart:
     drec->stream.next_in = (unsigned char *) (d->data + consumed);
     drec->stream.avail_in = (uint32_t) (d->len - consumed);
 
-    while (drec->stream.avail_in != 0) {
+    // Keep going while there is input, and also while the output buffer is
+    // full: the decoder may hold more output than it was able to store.
+    while (drec->stream.avail_in != 0 || drec->stream.avail_out == 0) {
         // If there's no more data left in the
         // buffer, send that information out.
         if (drec->stream.avail_out == 0) {
@@ -329,7 +331,12 @@ restart:
                 }
             }
         } else if (drec->zlib_initialized) {
+            int no_input = (drec->stream.avail_in == 0);
             rc = inflate(&drec->stream, Z_NO_FLUSH);
+            if (rc == Z_BUF_ERROR && no_input) {
+                // Nothing was pending after all.
+                rc = Z_OK;
+            }
         } else {
             // no initialization means previous error on stream
             return HTP_ERROR;
